@@ -15,6 +15,7 @@ func init() {
 	vrt.Register("C15_line_of_failing_tag", LineOfFailingTag)
 	vrt.Register("C15_shift", Shift)
 	vrt.Register("C15_positions", Positions)
+	vrt.Register("C15_input_ends_in_tag", InputEndsInTag)
 }
 
 func itoa(n int) string { return strconv.Itoa(n) }
@@ -49,6 +50,10 @@ var failingTags = []string{
 	"<%= one.Nope %>",
 	"<% nope = 1 %>",
 	"<%= [1, %>",
+	"<%= fail(\"a\" \"b\") %>",
+	"<%= {\"a\" 1} %>",
+	"<%= [`a` 1] %>",
+	"<%= \"a\" \"b\" ) %>",
 }
 
 const fillerAlphabet = "\n\r x"
@@ -191,5 +196,20 @@ func Positions() {
 	n, _ := lineOf(msg)
 	vrt.Assert(n >= 1, "the error starts with 'line N:'")
 	vrt.Assert(n == 1+newlines(pre), "inside a block: N is the line on which the failing tag begins")
+	vrt.Cover("done")
+}
+
+// the input ends inside the failing tag
+func InputEndsInTag() {
+	pre := preamble(1 + vrt.Tier())
+	ends := []string{"<%= 1 + ", "<%= foo(", "<% let x = ", "<%= [1, 2", "<%= \"a\" + "}
+	tag := ends[vrt.Choice(len(ends))]
+	err := render(pre + tag)
+	vrt.Assert(err != nil, "a template that ends inside a tag is an error")
+	msg := err.Error()
+	vrt.Note("error", msg)
+	n, _ := lineOf(msg)
+	vrt.Assert(n >= 1, "the error starts with 'line N:'")
+	vrt.Assert(n == 1+newlines(pre), "N is the line on which the unfinished tag begins")
 	vrt.Cover("done")
 }
